@@ -164,3 +164,131 @@ def selftests(prop):
             ('step', dict(st=1, lineno0=1, s='END')), ('step', dict(st=4, lineno0=9, s='x\r\ny')),
             ('step', dict(st=0, lineno0=1, s='-12')), ('step', dict(st=0, lineno0=1, s="'0'H")),
             ('forbidden', dict(i=0, dialect=0, tail=1))]
+
+
+# ---- direct solver obligations: first-match pre-emption between the rules of the master regex (z3 regex theory) --------
+
+def replay_lexeme(w, rule):
+    """does the REAL lexer (C re) return `w` as ONE token of rule `rule` from INITIAL? True = yes"""
+    lx = lexerFactory()()
+    lx.lexer.input(w)
+    try:
+        t = lx.lexer.token()
+    except Exception:
+        return False
+    return t is not None and t.value == w and lx.lexer.token() is None
+
+
+def replay_comment(ident):
+    """`<ident>--comment` + newline + `y`: the REAL lexer yields the identifier and then y. True = yes"""
+    lx = lexerFactory()()
+    lx.lexer.input(ident + '--comment\ny')
+    vals = []
+    try:
+        while True:
+            t = lx.lexer.token()
+            if t is None:
+                break
+            vals.append(t.value)
+    except Exception:
+        return False
+    return vals == [ident, 'y']
+
+
+def solver_obligations(prop, tier, ctx):
+    if prop != 'C02':
+        return []
+    import json
+    import os
+    import z3
+    from engine import smt
+    lx = lexerFactory()()
+    try:
+        rules = smt.master_rules(lx.lexer, 'INITIAL')
+    except Exception as e:
+        return [dict(cond='C02.lex.rule-preemption', status='inconclusive', verdict='UNTRANSLATABLE', paths=0, reason=str(e))]
+    S = z3.StringSort()
+    any_ = z3.AllChar(z3.ReSort(S))
+    regs = []
+    for name, nodes, flags in rules:
+        try:
+            regs.append((name, smt.re_to_z3(nodes, flags)))
+        except smt.Untranslatable as e:
+            regs.append((name, None))
+    known = set()
+    try:
+        for f in json.load(open(os.path.join(ctx['verif'], 'known_findings.json')))['findings']:
+            if f.get('status') == 'open' and 'C02' in f.get('properties', []):
+                known.add(f['id'])
+    except Exception:
+        pass
+    w = z3.String('w')
+    recs = []
+    token_rules = ('t_UPPERCASE_IDENTIFIER', 't_LOWERCASE_IDENTIFIER', 't_NUMBER', 't_BIN_STRING', 't_HEX_STRING', 't_QUOTED_STRING',
+                   't_DOT_DOT', 't_COLON_COLON_EQUAL')
+    total = 0.0
+    nq = 0
+    sat_pairs = []
+    unknown = []
+    for i, (ni, ri) in enumerate(regs):
+        if ni not in token_rules or ri is None:
+            continue
+        for j in range(i):
+            nj, rj = regs[j]
+            if rj is None:
+                unknown.append((nj, ni))
+                continue
+            # (a lexeme that IS a lexeme of the earlier rule - the keyword itself - is meant to be pre-empted)
+            v, model, dt, _ = smt.check([z3.InRe(w, ri), z3.InRe(w, z3.Concat(rj, z3.Star(any_))), z3.Not(z3.InRe(w, rj)), z3.Not(z3.SuffixOf(z3.StringVal('-'), w)), z3.Length(w) <= 12], 60000)
+            total += dt
+            nq += 1
+            if v == 'sat':
+                sat_pairs.append((nj, ni, model[w].as_string()))
+            elif v != 'unsat':
+                unknown.append((nj, ni))
+    base = dict(fn='master regex of the INITIAL lexer state (rule order as ply built it) -> z3 regular expressions', paths=0, queries=nq,
+                solver_cpu_s=round(total, 2),
+                bounds='every ordered pair (earlier rule, token rule): is some lexeme of the token rule pre-empted by a match of the earlier '
+                       'rule on one of its prefixes? (ply takes the FIRST matching alternative); unsat answers hold for lexemes of any length')
+    real = [(nj, ni, wv) for nj, ni, wv in sat_pairs if not replay_lexeme(wv, ni)]
+    if real:
+        kid = 'KF-lexer-keyword-prefix'
+        desc = '; '.join('%s pre-empts %s on %r' % r for r in real[:4])
+        if kid in known and all(nj in ('t_MACRO', 't_EXPORTS', 't_CHOICE') for nj, ni, wv in real):
+            recs.append(dict(base, cond='C02.lex.rule-preemption', status='known', known_id=kid, verdict='sat',
+                             message='identifiers that begin with MACRO / EXPORTS / CHOICE are split: ' + desc))
+        else:
+            nj, ni, wv = [r for r in real if r[0] not in ('t_MACRO', 't_EXPORTS', 't_CHOICE')][0] if kid in known else real[0]
+            rel = 'replays/C02-lex-preemption.py'
+            os.makedirs(os.path.join(ctx['verif'], 'replays'), exist_ok=True)
+            with open(os.path.join(ctx['verif'], rel), 'w') as fh:
+                fh.write('import os, sys\nsys.path.insert(0, os.environ.get("VERIF_REPO", "/repo"))\n'
+                         'sys.path.insert(0, os.path.dirname(os.path.dirname(os.path.abspath(__file__))))\n'
+                         'from harness.c02_lex import replay_lexeme\nsys.exit(0 if replay_lexeme(%r, %r) else 1)\n' % (wv, ni))
+            recs.append(dict(base, cond='C02.lex.rule-preemption', status='violation', verdict='sat', counterexample=dict(lexeme=wv, rule=ni, preempted_by=nj),
+                             replay=rel, message='the lexeme %r of %s is not returned as one token: %s matches a prefix first' % (wv, ni, nj)))
+    elif unknown:
+        recs.append(dict(base, cond='C02.lex.rule-preemption', status='inconclusive', verdict='unknown', reason='undecided pairs: %r' % (unknown[:5],)))
+    else:
+        recs.append(dict(base, cond='C02.lex.rule-preemption', status='held', verdict='unsat', confirmed_paths=nq))
+    # comments: `--` inside something the identifier rules accept
+    ident = [r for n, r in regs if n in ('t_UPPERCASE_IDENTIFIER', 't_LOWERCASE_IDENTIFIER') and r is not None]
+    if ident:
+        v, model, dt, _ = smt.check([z3.Or(*[z3.InRe(w, r) for r in ident]), z3.Contains(w, z3.StringVal('--')),
+                                     z3.Not(z3.SuffixOf(z3.StringVal('-'), w)), z3.Length(w) <= 6], 60000)
+        rec = dict(base, cond='C02.lex.comment-after-identifier', queries=1, solver_cpu_s=round(dt, 2), verdict=v,
+                   bounds='is there an identifier lexeme that contains `--` (where a comment starts)?')
+        if v == 'unsat':
+            rec.update(status='held', confirmed_paths=1)
+        elif v == 'sat':
+            wv = model[w].as_string()
+            if 'KF-lexer-double-hyphen' in known:
+                rec.update(status='known', known_id='KF-lexer-double-hyphen',
+                           message='%r is taken as ONE identifier: a `--` comment directly after an identifier is not recognised' % wv)
+            else:
+                rec.update(status='violation', counterexample=dict(lexeme=wv), replay='replays/C02-lex-preemption.py',
+                           message='%r lexes as one identifier although `--` starts a comment' % wv)
+        else:
+            rec.update(status='inconclusive', reason='z3: %s' % v)
+        recs.append(rec)
+    return recs
